@@ -220,6 +220,40 @@ def conect(bonds):
     return None if pairs == exp else f"CONECT records carry {sorted(pairs)}, bonds are {sorted(exp)}"
 
 
+def conect_serials(atom_ids, hybrid36):
+    """CONECT records name atoms by the serial strings of their ATOM/HETATM records (wrapped or hybrid-36 encoded
+    like them), in 5-character columns"""
+    a = make(n=3, coord=[[0, 0, 0], [1.5, 0, 0], [3, 0, 0]], hetero=[True, True, True], res_name=["LIG", "LIG", "LIG"],
+             atom_name=["C1", "C2", "O1"], atom_id=atom_ids)
+    a.bonds = struc.BondList(3, np.array([(0, 1, 1), (1, 2, 2)]))
+    f = pdb.PDBFile()
+    try:
+        f.set_structure(a, hybrid36=hybrid36)
+    except Exception as e:
+        return None if not hybrid36 and max(atom_ids) > 99999 and False else f"set_structure raised {type(e).__name__}: {e}"
+    serial = [l[6:11] for l in f.lines if l.startswith(("ATOM", "HETATM"))]
+    if len(set(serial)) != 3:
+        return None          # wrapped serials collide: CONECT records cannot be unambiguous (format limit)
+    exp = {(serial[0], serial[1]), (serial[1], serial[0]), (serial[1], serial[2]), (serial[2], serial[1])}
+    got = set()
+    for l in f.lines:
+        if l.startswith("CONECT"):
+            if len(l.rstrip()) > 31 or (len(l.rstrip()) - 6) % 5:
+                return f"CONECT record with shifted columns: {l.rstrip()!r} (ATOM serials {serial})"
+            c = l[6:11]
+            for k in range(11, len(l.rstrip()), 5):
+                got.add((c, l[k:k + 5]))
+    if got != exp:
+        return f"CONECT records {sorted(got)} do not name the ATOM serials {serial} of the bonded atoms"
+    return None
+
+
+for ids in ([1, 2, 3], [99998, 99999, 100000], [100000, 100001, 100002], [99999, 1223055, 43770015], [5, 3, 9]):
+    for hybrid36 in (False, True):
+        R.check("CONECT records carry exactly the bonds", f"CONECT serials hybrid36={hybrid36}", {"atom_id": ids, "hybrid36": hybrid36},
+                lambda ids=ids, hybrid36=hybrid36: conect_serials(ids, hybrid36))
+
+
 def conect_layout(chains, res_ids, ins, hetero, bonds):
     """every bond between different residues, or touching a non-water hetero atom, has its CONECT record
     (bonds inside one standard residue are left to the component dictionary)"""
